@@ -35,6 +35,7 @@ struct nv_parameter { struct nv_str m_name; struct nv_storage m_storage; };
 struct nv_tup_i32 { int32_t _0, _1; };
 struct nv_tup_i64 { int64_t _0, _1; };
 struct nv_tup_f64 { double _0, _1; };
+struct nv_tup_f32 { float _0, _1; };
 
 /* std::isfinite(double) (the <cmath> function called by nano::isfinite<double>) */
 static _Bool nv_std_isfinite(double x) { return !__CPROVER_isnand(x) && !__CPROVER_isinfd(x); }
@@ -56,7 +57,8 @@ static _Bool nv_std_isfinite(double x) { return !__CPROVER_isnand(x) && !__CPROV
  * CBMC's conversion check) is converted without the built-in cast */
 #define NV_CONV(TS, x) NV_CONV_##TS(x)
 #define NV_CONV_double(x) ((double)(x))
-#define NV_CONV_int64_t(x) _Generic((x), double: (((x) == -9223372036854775808.0) ? INT64_MIN : (int64_t)(x)), default: ((int64_t)(x)))
+#define NV_CONV_int64_t(x) _Generic((x), double: (((x) == -9223372036854775808.0) ? INT64_MIN : (int64_t)(x)), \
+                                      float: (((x) == -9223372036854775808.0f) ? INT64_MIN : (int64_t)(x)), default: ((int64_t)(x)))
 /* double -> int64 is defined only for finite values whose truncation is representable, i.e. -2^63 <= x < 2^63 */
 #define NV_F2I_DEFINED(x) (NV_FIN_F(x) && (x) >= -9223372036854775808.0 && (x) < 9223372036854775808.0)
 
@@ -83,6 +85,15 @@ __CPROVER_ensures(__CPROVER_return_value == NV_CMP(*L, A, B))
 #define NV_CONTRACT_check_f64_ll NV_CONTRACT_CHECK(NV_ARG_check_f64_ll_0, NV_ARG_check_f64_ll_1, NV_ARG_check_f64_ll_2)
 #define NV_CONTRACT_check_f64_i32 NV_CONTRACT_CHECK(NV_ARG_check_f64_i32_0, NV_ARG_check_f64_i32_1, NV_ARG_check_f64_i32_2)
 #define NV_CONTRACT_check_f64_f64 NV_CONTRACT_CHECK(NV_ARG_check_f64_f64_0, NV_ARG_check_f64_f64_1, NV_ARG_check_f64_f64_2)
+#define NV_CONTRACT_check_i64_f32 NV_CONTRACT_CHECK(NV_ARG_check_i64_f32_0, NV_ARG_check_i64_f32_1, NV_ARG_check_i64_f32_2)
+#define NV_CONTRACT_check_ll_f32 NV_CONTRACT_CHECK(NV_ARG_check_ll_f32_0, NV_ARG_check_ll_f32_1, NV_ARG_check_ll_f32_2)
+#define NV_CONTRACT_check_i32_f32 NV_CONTRACT_CHECK(NV_ARG_check_i32_f32_0, NV_ARG_check_i32_f32_1, NV_ARG_check_i32_f32_2)
+#define NV_CONTRACT_check_f64_f32 NV_CONTRACT_CHECK(NV_ARG_check_f64_f32_0, NV_ARG_check_f64_f32_1, NV_ARG_check_f64_f32_2)
+#define NV_CONTRACT_check_f32_i64 NV_CONTRACT_CHECK(NV_ARG_check_f32_i64_0, NV_ARG_check_f32_i64_1, NV_ARG_check_f32_i64_2)
+#define NV_CONTRACT_check_f32_ll NV_CONTRACT_CHECK(NV_ARG_check_f32_ll_0, NV_ARG_check_f32_ll_1, NV_ARG_check_f32_ll_2)
+#define NV_CONTRACT_check_f32_i32 NV_CONTRACT_CHECK(NV_ARG_check_f32_i32_0, NV_ARG_check_f32_i32_1, NV_ARG_check_f32_i32_2)
+#define NV_CONTRACT_check_f32_f64 NV_CONTRACT_CHECK(NV_ARG_check_f32_f64_0, NV_ARG_check_f32_f64_1, NV_ARG_check_f32_f64_2)
+#define NV_CONTRACT_check_f32_f32 NV_CONTRACT_CHECK(NV_ARG_check_f32_f32_0, NV_ARG_check_f32_f32_1, NV_ARG_check_f32_f32_2)
 
 /* ------------------------------------------------------------------ check-then-assign on a range record `r`
  * G: guard (which alternative is active), DEF: the conversion (TS)x is defined, x: the assigned number.
@@ -125,6 +136,9 @@ __CPROVER_ensures(!nv_thrown ==> __CPROVER_return_value == P)
 #define NV_CONTRACT_update_ir_i32 NV_UPD_R_I(update_ir_i32)
 #define NV_CONTRACT_update_ir_f64 NV_CONTRACT_UPDATE_R(NV_FIN_I, NV_EQ_I, int64_t, NV_F2I_DEFINED(NV_ARG_update_ir_f64_2), NV_ARG_update_ir_f64_1, NV_ARG_update_ir_f64_2) \
 __CPROVER_ensures(!NV_F2I_DEFINED(NV_ARG_update_ir_f64_2) ==> nv_thrown)
+#define NV_CONTRACT_update_ir_f32 NV_CONTRACT_UPDATE_R(NV_FIN_I, NV_EQ_I, int64_t, NV_F2I_DEFINED(NV_ARG_update_ir_f32_2), NV_ARG_update_ir_f32_1, NV_ARG_update_ir_f32_2) \
+__CPROVER_ensures(!NV_F2I_DEFINED(NV_ARG_update_ir_f32_2) ==> nv_thrown)
+#define NV_CONTRACT_update_fr_f32 NV_UPD_R_F(update_fr_f32)
 #define NV_CONTRACT_update_fr_f64 NV_UPD_R_F(update_fr_f64)
 #define NV_CONTRACT_update_fr_i64 NV_UPD_R_F(update_fr_i64)
 #define NV_CONTRACT_update_fr_ll  NV_UPD_R_F(update_fr_ll)
@@ -144,6 +158,10 @@ __CPROVER_ensures(!nv_thrown ==> __CPROVER_return_value == P)
 #define NV_IP_F64_DEF (NV_F2I_DEFINED(NV_ARG_update_ip_f64_2) && NV_F2I_DEFINED(NV_ARG_update_ip_f64_3))
 #define NV_CONTRACT_update_ip_f64 NV_CONTRACT_UPDATE_P(NV_FIN_I, NV_EQ_I, int64_t, NV_IP_F64_DEF, NV_ARG_update_ip_f64_1, NV_ARG_update_ip_f64_2, NV_ARG_update_ip_f64_3) \
 __CPROVER_ensures(!NV_IP_F64_DEF ==> nv_thrown)
+#define NV_IP_F32_DEF (NV_F2I_DEFINED(NV_ARG_update_ip_f32_2) && NV_F2I_DEFINED(NV_ARG_update_ip_f32_3))
+#define NV_CONTRACT_update_ip_f32 NV_CONTRACT_UPDATE_P(NV_FIN_I, NV_EQ_I, int64_t, NV_IP_F32_DEF, NV_ARG_update_ip_f32_1, NV_ARG_update_ip_f32_2, NV_ARG_update_ip_f32_3) \
+__CPROVER_ensures(!NV_IP_F32_DEF ==> nv_thrown)
+#define NV_CONTRACT_update_fp_f32 NV_UPD_P_F(update_fp_f32)
 #define NV_CONTRACT_update_fp_f64 NV_UPD_P_F(update_fp_f64)
 #define NV_CONTRACT_update_fp_i64 NV_UPD_P_F(update_fp_i64)
 #define NV_CONTRACT_update_fp_ll  NV_UPD_P_F(update_fp_ll)
@@ -156,48 +174,59 @@ __CPROVER_ensures(!NV_IP_F64_DEF ==> nv_thrown)
 #define NV_ST_WF(s) ((1) && ((s).index != 2 || NV_RANGE_WF((s).a2)) && ((s).index != 3 || NV_RANGE_WF((s).a3)) && \
                      ((s).index != 4 || NV_PAIR_WF((s).a4)) && ((s).index != 5 || NV_PAIR_WF((s).a5)))
 
-#define NV_POST_ST_SCALAR(s, DEF) \
+#define NV_POST_ST_SCALAR(s, DEF, X) \
 __CPROVER_ensures((s).index == NV_OLD((s).index)) \
-NV_POST_R((s).index == 2, NV_FIN_I, NV_EQ_I, int64_t, DEF, (s).a2, value) \
-NV_POST_R((s).index == 3, NV_FIN_F, NV_EQ_F, double, 1, (s).a3, value) \
+NV_POST_R((s).index == 2, NV_FIN_I, NV_EQ_I, int64_t, DEF, (s).a2, X) \
+NV_POST_R((s).index == 3, NV_FIN_F, NV_EQ_F, double, 1, (s).a3, X) \
 __CPROVER_ensures((s).index != 2 ==> NV_SAME_R(NV_EQ_I, (s).a2)) \
 __CPROVER_ensures((s).index != 3 ==> NV_SAME_R(NV_EQ_F, (s).a3)) \
 __CPROVER_ensures(((s).index != 2 && (s).index != 3) ==> nv_thrown)
 
-#define NV_POST_ST_PAIR(s, DEF) \
+#define NV_POST_ST_PAIR(s, DEF, X) \
 __CPROVER_ensures((s).index == NV_OLD((s).index)) \
-NV_POST_P((s).index == 4, NV_FIN_I, NV_EQ_I, int64_t, DEF, (s).a4, value._0, value._1) \
-NV_POST_P((s).index == 5, NV_FIN_F, NV_EQ_F, double, 1, (s).a5, value._0, value._1) \
+NV_POST_P((s).index == 4, NV_FIN_I, NV_EQ_I, int64_t, DEF, (s).a4, X._0, X._1) \
+NV_POST_P((s).index == 5, NV_FIN_F, NV_EQ_F, double, 1, (s).a5, X._0, X._1) \
 __CPROVER_ensures((s).index != 4 ==> NV_SAME_P(NV_EQ_I, (s).a4)) \
 __CPROVER_ensures((s).index != 5 ==> NV_SAME_P(NV_EQ_F, (s).a5)) \
 __CPROVER_ensures(((s).index != 4 && (s).index != 5) ==> nv_thrown)
 
-#define NV_CONTRACT_UPDATE_ST_SCALAR(DEF) \
-__CPROVER_requires(!nv_thrown && __CPROVER_is_fresh(storage, sizeof(*storage)) && NV_ST_WF(*storage)) \
-__CPROVER_assigns(nv_thrown, storage->a2.m_value, storage->a3.m_value) \
-NV_POST_ST_SCALAR(*storage, DEF)
-#define NV_CONTRACT_UPDATE_ST_PAIR(DEF) \
-__CPROVER_requires(!nv_thrown && __CPROVER_is_fresh(storage, sizeof(*storage)) && NV_ST_WF(*storage)) \
-__CPROVER_assigns(nv_thrown, storage->a4.m_value1, storage->a4.m_value2, storage->a5.m_value1, storage->a5.m_value2) \
-NV_POST_ST_PAIR(*storage, DEF)
+#define NV_CONTRACT_UPDATE_ST_SCALAR(DEF, S, X) \
+__CPROVER_requires(!nv_thrown && __CPROVER_is_fresh(S, sizeof(*S)) && NV_ST_WF(*S)) \
+__CPROVER_assigns(nv_thrown, S->a2.m_value, S->a3.m_value) \
+NV_POST_ST_SCALAR(*S, DEF, X)
+#define NV_CONTRACT_UPDATE_ST_PAIR(DEF, S, X) \
+__CPROVER_requires(!nv_thrown && __CPROVER_is_fresh(S, sizeof(*S)) && NV_ST_WF(*S)) \
+__CPROVER_assigns(nv_thrown, S->a4.m_value1, S->a4.m_value2, S->a5.m_value1, S->a5.m_value2) \
+NV_POST_ST_PAIR(*S, DEF, X)
 
-#define NV_CONTRACT_update_st_i64 NV_CONTRACT_UPDATE_ST_SCALAR(1)
-#define NV_CONTRACT_update_st_f64 NV_CONTRACT_UPDATE_ST_SCALAR(NV_F2I_DEFINED(value))
-#define NV_CONTRACT_update_st_t32 NV_CONTRACT_UPDATE_ST_PAIR(1)
-#define NV_CONTRACT_update_st_t64 NV_CONTRACT_UPDATE_ST_PAIR(1)
-#define NV_CONTRACT_update_st_tf  NV_CONTRACT_UPDATE_ST_PAIR(NV_F2I_DEFINED(value._0) && NV_F2I_DEFINED(value._1))
+/* one contract per assigned type the storage-level template can be instantiated for (integers: the conversion to int64 is
+ * always defined; floating point: defined iff finite and representable) */
+#define NV_ST_I(n) NV_CONTRACT_UPDATE_ST_SCALAR(1, NV_ARG_##n##_1, NV_ARG_##n##_2)
+#define NV_ST_F(n) NV_CONTRACT_UPDATE_ST_SCALAR(NV_F2I_DEFINED(NV_ARG_##n##_2), NV_ARG_##n##_1, NV_ARG_##n##_2)
+#define NV_ST_TI(n) NV_CONTRACT_UPDATE_ST_PAIR(1, NV_ARG_##n##_1, NV_ARG_##n##_2)
+#define NV_ST_TF(n) NV_CONTRACT_UPDATE_ST_PAIR(NV_F2I_DEFINED(NV_ARG_##n##_2._0) && NV_F2I_DEFINED(NV_ARG_##n##_2._1), NV_ARG_##n##_1, NV_ARG_##n##_2)
+#define NV_CONTRACT_update_st_i64 NV_ST_I(update_st_i64)
+#define NV_CONTRACT_update_st_ll  NV_ST_I(update_st_ll)
+#define NV_CONTRACT_update_st_i32 NV_ST_I(update_st_i32)
+#define NV_CONTRACT_update_st_f64 NV_ST_F(update_st_f64)
+#define NV_CONTRACT_update_st_f32 NV_ST_F(update_st_f32)
+#define NV_CONTRACT_update_st_ti64 NV_ST_TI(update_st_ti64)
+#define NV_CONTRACT_update_st_tll  NV_ST_TI(update_st_tll)
+#define NV_CONTRACT_update_st_ti32 NV_ST_TI(update_st_ti32)
+#define NV_CONTRACT_update_st_tf64 NV_ST_TF(update_st_tf64)
+#define NV_CONTRACT_update_st_tf32 NV_ST_TF(update_st_tf32)
 
 /* ------------------------------------------------------------------ parameter_t::seti / setd / operator=(tuple) */
 #define NV_CONTRACT_PARAM_SCALAR(DEF) \
 __CPROVER_requires(!nv_thrown && __CPROVER_is_fresh(self, sizeof(*self)) && NV_ST_WF(self->m_storage)) \
 __CPROVER_assigns(nv_thrown, self->m_storage.a2.m_value, self->m_storage.a3.m_value) \
-NV_POST_ST_SCALAR(self->m_storage, DEF) \
+NV_POST_ST_SCALAR(self->m_storage, DEF, value) \
 __CPROVER_ensures(self->m_name.id == NV_OLD(self->m_name.id)) \
 __CPROVER_ensures(!nv_thrown ==> __CPROVER_return_value == self)
 #define NV_CONTRACT_PARAM_PAIR(DEF) \
 __CPROVER_requires(!nv_thrown && __CPROVER_is_fresh(self, sizeof(*self)) && NV_ST_WF(self->m_storage)) \
 __CPROVER_assigns(nv_thrown, self->m_storage.a4.m_value1, self->m_storage.a4.m_value2, self->m_storage.a5.m_value1, self->m_storage.a5.m_value2) \
-NV_POST_ST_PAIR(self->m_storage, DEF) \
+NV_POST_ST_PAIR(self->m_storage, DEF, value) \
 __CPROVER_ensures(self->m_name.id == NV_OLD(self->m_name.id)) \
 __CPROVER_ensures(!nv_thrown ==> __CPROVER_return_value == self)
 #define NV_CONTRACT_parameter_seti NV_CONTRACT_PARAM_SCALAR(1)
